@@ -196,12 +196,15 @@ static void cp_do_op(htp_connp_t *connp, char *op) {
         }
 }
 static void cp_finish(htp_connp_t *connp) {
+    /* which guarded trace points of /repo fired during this case; stripped by the comparer (the model has no trace points) */
+    unsigned cp_tb = verif_trace_bits; verif_trace_bits = 0;
     printf("||fl=%x,in=%lld,out=%lld", (unsigned) connp->conn->flags, (long long) connp->conn->in_data_counter, (long long) connp->conn->out_data_counter);
     for (size_t i = 0, n = htp_list_size(connp->conn->transactions); i < n; i++) {
         htp_tx_t *tx = htp_list_get(connp->conn->transactions, i);
         putchar(';');
         if (tx == NULL) printf("N"); else cp_dump_tx(tx);
     }
+    printf(" #t=%x", cp_tb);
 }
 static int drv_connp(char **f, int nf) {
     if (strcmp(f[0], "connp") != 0) return 0;
